@@ -449,7 +449,7 @@ func init() {
 		Rule: "case k decodes to (unordered pair of the 10 spellings {-xV,-x=V,-x V,--name=V,--name V} x {plain, Go-literal}) x 13 value classes x 5 short-rune classes x 5 positions; a random declaration supplies an option admitting that value, the occurrence is inserted into a random valid surrounding vector (every 5th with a hostile trailing token) and both renderings are parsed on fresh parsers; every 8th case compares a cluster with its separated flags. " +
 			"Non-trivial = both spellings admissible (per the documented exceptions) and both outcomes compared on values, call log, remaining arguments, error type+message; distinct = (spelling pair, value class, option type, rune class, position, ok/err).",
 		Assumptions: []string{"'-' followed by a digit is the reading of 'negative number' for the separate-token exception; -.5/-Inf are unspecified", "a text starting with a double quote is only comparable among equally quoted spellings", "ValueValidator types with option-shaped or '!' values are unspecified in separate-token form"},
-		Technique:   "runtime metamorphic monitor: two renderings of the same intent parsed by the real code and compared on all observables; exhaustive spelling-pair x value-class matrix",
+		Technique:   "runtime metamorphic monitor: two renderings of the same intent parsed by the real code and compared on all observables; exhaustive spelling-pair x value-class matrix; metamorphic history monitor ([use, change of the public model, use] on one parser vs. a fresh parser of the changed declaration)",
 		LevelText:   "Exploration with an exhaustive small-scope matrix: every pair of documented spellings is compared for every value class, short-rune class and position at every seed, with random declarations and surroundings inside each cell. No expected value is needed (metamorphic), so the oracle cannot over-demand beyond the admissibility table.",
 		LevelNote:   "Trusted: the admissibility predicate (the documented exceptions), the declaration builder and the renderer.",
 		DesignRef:   "§4 C02",
